@@ -16,7 +16,7 @@ import (
 //	mkcondchecker.go    var mkCondStringLiteralUnquoted = textproc.NewByteSet("...")
 //	                    var mkCondModifierPatternLiteral = textproc.NewByteSet("...")
 //	mktypes.go          MatchMatch: strings.ContainsAny(str[1:], "...")
-//	mkcondsimplifier.go simplifyWord:  matches(pattern, `^\d+\.?\d*$`)      (shape checked, text emitted)
+//	mkcondsimplifier.go simplifyWord:  matches(pattern, `^[\d+\-.]`)         (class expanded, text emitted)
 //	                    simplifyMatch: matches(expr.Mod(), `^[...]+$`)      (class expanded)
 func genCondSimp(src string) (string, string, error) {
 	strLit := func(e ast.Expr) (string, bool) {
@@ -167,50 +167,66 @@ func genCondSimp(src string) (string, string, error) {
 	if len(rm) != 1 {
 		return "", "", fmt.Errorf("simplifyMatch: expected one matches(_, regex), found %d", len(rm))
 	}
-	// ^[class]+$ with the escapes \- \w \[ \] only
+	// a regex character class with the escapes \- \w \d \[ \] ... only
+	classSet := func(where, rx, body string) ([]int, error) {
+		var set [256]bool
+		for i := 0; i < len(body); i++ {
+			c := body[i]
+			switch {
+			case c == '\\' && i+1 < len(body):
+				i++
+				switch body[i] {
+				case 'w':
+					for b := 0; b < 256; b++ {
+						if b >= '0' && b <= '9' || b >= 'A' && b <= 'Z' || b >= 'a' && b <= 'z' || b == '_' {
+							set[b] = true
+						}
+					}
+				case 'd':
+					for b := '0'; b <= '9'; b++ {
+						set[b] = true
+					}
+				case '-', '[', ']', '.', '\\', '*', '+', '?', '$', '^', '(', ')', '{', '}', '|', ':':
+					set[body[i]] = true
+				default:
+					return nil, fmt.Errorf("%s: unsupported escape \\%c in %q", where, body[i], rx)
+				}
+			case c == '^' && i == 0, c == '[', c == ']':
+				return nil, fmt.Errorf("%s: unsupported character class syntax in %q", where, rx)
+			case i+2 < len(body) && body[i+1] == '-' && body[i+2] != '\\':
+				for b := int(c); b <= int(body[i+2]); b++ {
+					set[b] = true
+				}
+				i += 2
+			default:
+				set[c] = true
+			}
+		}
+		var out []int
+		for b, ok := range set {
+			if ok {
+				out = append(out, b)
+			}
+		}
+		return out, nil
+	}
+	// simplifyMatch: ^[class]+$
 	cls := rm[0]
 	if !strings.HasPrefix(cls, "^[") || !strings.HasSuffix(cls, "]+$") {
 		return "", "", fmt.Errorf("simplifyMatch: regex %q is not of the shape ^[...]+$", cls)
 	}
-	body := cls[2 : len(cls)-3]
-	var simple [256]bool
-	for i := 0; i < len(body); i++ {
-		c := body[i]
-		switch {
-		case c == '\\' && i+1 < len(body):
-			i++
-			switch body[i] {
-			case 'w':
-				for b := 0; b < 256; b++ {
-					if b >= '0' && b <= '9' || b >= 'A' && b <= 'Z' || b >= 'a' && b <= 'z' || b == '_' {
-						simple[b] = true
-					}
-				}
-			case 'd':
-				for b := '0'; b <= '9'; b++ {
-					simple[b] = true
-				}
-			case '-', '[', ']', '.', '\\', '*', '+', '?', '$', '^', '(', ')', '{', '}', '|', ':':
-				simple[body[i]] = true
-			default:
-				return "", "", fmt.Errorf("simplifyMatch: unsupported escape \\%c in %q", body[i], cls)
-			}
-		case c == '^' && i == 0, c == '[', c == ']':
-			return "", "", fmt.Errorf("simplifyMatch: unsupported character class syntax in %q", cls)
-		case i+2 < len(body) && body[i+1] == '-' && body[i+2] != '\\':
-			for b := int(c); b <= int(body[i+2]); b++ {
-				simple[b] = true
-			}
-			i += 2
-		default:
-			simple[c] = true
-		}
+	simpleSet, err := classSet("simplifyMatch", cls, cls[2:len(cls)-3])
+	if err != nil {
+		return "", "", err
 	}
-	var simpleSet []int
-	for b, ok := range simple {
-		if ok {
-			simpleSet = append(simpleSet, b)
-		}
+	// simplifyWord: ^[class] -- the first byte of a pattern that make may read as a number
+	num := rw[0]
+	if !strings.HasPrefix(num, "^[") || !strings.HasSuffix(num, "]") || strings.Count(num, "]") != 1 {
+		return "", "", fmt.Errorf("simplifyWord: regex %q is not of the shape ^[...]", num)
+	}
+	numericHeadSet, err := classSet("simplifyWord", num, num[2:len(num)-1])
+	if err != nil {
+		return "", "", err
 	}
 
 	var sb strings.Builder
@@ -224,7 +240,9 @@ func genCondSimp(src string) (string, string, error) {
 	sb.WriteString("Definition match_special_set : list N := " + coqSet(specialSet) + ".\n")
 	sb.WriteString("(* simplifyMatch: the character class of the regex on expr.Mod() *)\n")
 	sb.WriteString("Definition simple_mod_set : list N := " + coqSet(simpleSet) + ".\n")
-	sb.WriteString("(* simplifyWord: the regex that forces quotes around a numeric pattern, as bytes *)\n")
+	sb.WriteString("(* simplifyWord: the first byte of a pattern that is treated as a number (character class of the regex) *)\n")
+	sb.WriteString("Definition numeric_head_set : list N := " + coqSet(numericHeadSet) + ".\n")
+	sb.WriteString("(* simplifyWord: that regex, as bytes *)\n")
 	sb.WriteString("Definition needs_quotes_regex : str := " + coqBytes(rw[0]) + ".\n")
 	return "CondSimpSets.v", sb.String(), nil
 }
